@@ -181,3 +181,29 @@ def watch_spirals(sim) -> list:
     sim.invalidate_spiral_variables = wrapper
     sim._dsim_spirals = seen
     return seen
+
+
+def watch_calls(sim) -> list:
+    """The harness's own call tree, independent of the tracer: an instance-level
+    wrapper around `simulation.calculate` (an attribute set on the simulation
+    object, not a change to the class) logs every invocation with its nesting -
+    sub-period calls of an ADD request and cache hits included."""
+    roots: list = []
+    real = sim.calculate
+
+    def calculate(variable_name, period):
+        node = {"name": variable_name, "period": str(periods.period(period)) if period is not None else None,
+                "children": [], "value": None, "failed": True, "frame": None}
+        (CTX.call_stack[-1]["children"] if CTX.call_stack else roots).append(node)
+        CTX.call_stack.append(node)
+        try:
+            result = real(variable_name, period)
+            node["value"] = result
+            node["failed"] = False
+            return result
+        finally:
+            CTX.call_stack.pop()
+
+    sim.calculate = calculate
+    sim._dsim_calls = roots
+    return roots
